@@ -194,7 +194,8 @@ class Kernel:
                     if not task.done:
                         task.done = True
                         try:
-                            task.coro.close()
+                            if task.coro is not None:
+                                task.coro.close()
                         except _ControlFlow:
                             raise
                         except BaseException:
@@ -310,6 +311,10 @@ class Kernel:
             scope._remove(task)
         if task.parent_tg is not None:
             task.parent_tg._child_finished(task)
+        # like a real event loop, a finished task no longer keeps its coroutine, its context variables or its scopes alive
+        task.coro = None
+        task.ctx = None
+        task.scopes = []
 
 
 _kernel: Kernel | None = None
